@@ -157,6 +157,16 @@ class UserFn(object):
                 self.world.events[st[1]].set()
             elif k == "yield":
                 s.yield_point("uyield")
+            elif k == "nested":
+                # submit further work to the top executor of the stack from inside this user code
+                top = getattr(self.world, "top", None)
+                if top is not None:
+                    s.ev("call", "nsubmit", self.name)
+                    try:
+                        top.submit(self.world.fn("nested_in_%s_%d" % (self.name, self.count), [[("ret", -2)]]))
+                        s.ev("ret", "nsubmit", self.name)
+                    except RuntimeError as e:
+                        s.ev("raise", "nsubmit", type(e).__name__, str(e)[:60])
             else:
                 raise ValueError("unknown step %r" % (st,))
         return None
